@@ -234,14 +234,26 @@ def run_check(prop, P, args):
             # `unknown` on an untouched item next to an edited one is a solver budget matter (undecided), and reporting
             # it would blame the wrong obligation.  Items without a fingerprint (static / effect tables, lemmas) are
             # decided by evaluation, never by a budget: there any change of the property's files counts.
+            # Which failed obligations are evidence against the CODE (and not merely against the proof)?
+            #   contract clauses  - postconditions, frame conditions, preconditions of callees, safety (index / division /
+            #                       None / unreachable raise), definite static breaches: a change that makes one of these
+            #                       fail has changed the behaviour the contract describes;
+            #   proof-internal    - loop invariants (entry / preservation), hints, lemma hypotheses: when they fail on a
+            #                       changed body the PROOF no longer applies (a harmless restructuring does that too), which
+            #                       is no verdict about the property - undecided, the run-time channel decides;
+            #   no verdict        - shape obligations that do not recognise the code (status unknown by construction).
+            INTERNAL = ("entry", "pres", "hint", "lemma", "cover")
+
             def regressed(o):
                 if o.get("item_kind") == "lemma":
-                    return False        # lemmas do not depend on the code under check
+                    return False
+                if o.get("kind") in INTERNAL and o.get("item_kind") not in ("axioms", "metric"):
+                    return False        # (the `lemma` obligations of metric items are statements about the code's formula)
                 if o["hash_changed"]:
                     return True
                 if not changed_files:
                     return False
-                return o["status"] == "sat" or o.get("no_fingerprint")
+                return o["status"] == "sat" or (o.get("no_fingerprint") and o["status"] != "unknown")
             real = [o for o in unexplained if regressed(o) and o["name"] in set(base.get("discharged", []))]
             new_names = [o for o in unexplained if o["name"] not in set(base.get("discharged", [])) and regressed(o)]
             if real or new_names:
@@ -269,7 +281,11 @@ def run_check(prop, P, args):
         for fn, (k, msg) in soft:
             lines.append("UNDECIDED %s: %s: %s" % (fn, k, msg[:300]))
         for o in undecided:
-            lines.append("UNDECIDED obligation %s (%s %s) on an unchanged function body" % (o["name"], o["status"], o.get("reason", "")))
+            lines.append("UNDECIDED obligation %s (%s %s): %s" % (
+                o["name"], o["status"], o.get("reason", ""),
+                "a proof-internal obligation (invariant / hint) - the proof as written does not cover this code"
+                if o.get("kind") in ("entry", "pres", "hint", "lemma") else
+                "no verdict (unchanged item, solver budget or unrecognised shape)"))
         if exit_code == 2 and bstats is not None and bfailure is None and not berror:
             # the deductive part could not decide (unsupported syntax / spec anchor drift / solver budget) and found no
             # refutation; the run-time contracts on the real code held on everything explored: report that, at the level
@@ -280,7 +296,10 @@ def run_check(prop, P, args):
             fell_back = True
     for k in known_hits:
         lines.append("KNOWN-FINDING: property=%s %s" % (prop, k.get("what", k.get("id"))))
-    if obligations == 0 and names:
+    if obligations == 0 and names and len(errors) < len(names):
+        # vacuity guard: items were processed without any error and still produced nothing (when EVERY item is
+        # undecided - e.g. a helper all of them inline became unsupported - zero obligations is the expected outcome
+        # and the fallback above has already said what the verdict rests on)
         lines.append("CHECKER-ERROR zero obligations generated")
         exit_code = 3
 
